@@ -263,7 +263,9 @@ def add_reproducers(vs, pid):
         path = os.path.join(VERIF, "findings", key + ".json")
         if os.path.exists(path):
             with open(path) as f:
-                envs.append(json.load(f)["env"])
+                d = json.load(f)
+            envs.append(d["env"])
+            envs += d.get("envs", [])
     if not envs:
         return
     groups, stats = generate_given(envs)
